@@ -258,7 +258,11 @@ impl<'a, N: Normalizer> Html5Serializer<'a, N> {
                     });
                 }
 
-                let namespace = self.xot.namespace_str(*namespace_id);
+                // the URI is an attribute value: & < " have to be escaped
+                let namespace = serialize_attribute(
+                    self.xot.namespace_str(*namespace_id).into(),
+                    &self.normalizer,
+                );
                 if *prefix_id == self.xot.empty_prefix_id {
                     OutputToken {
                         space: true,
